@@ -241,7 +241,9 @@ def feasible(case):
         return False
     f = unit_factor(cfg.get("timestep", "seconds"))
     for o in cfg["obs"]:
-        if o["start"] % f or o["dur"] % f:
+        # durations must be whole timesteps; a planned start may lie off the
+        # timestep grid (the repository's own custom-timestep config does)
+        if o["dur"] % f:
             return False
         dur = o["dur"] // f
         rate = o["rate"] * f
